@@ -156,6 +156,19 @@ check("C19",
       "DESIGN.md 6 C19",
       technique="bounded symbolic execution of the repo's layers and block kernels on symbolic arrays (symx) + z3 SMT (QF_UFLIRA)")
 
+check("C18",
+      "Solver-decided in two parts. (a) Tree shape: the real _build_tree_reduce_expr/_normalize_split_every/"
+      "PartialReduce.chunks/_layer build the reduction tree over a symbolic array (1..9/16 blocks, split_every 2..5/16, "
+      "symbolic chunk sizes, rank <= 2); the graph is executed on symbolic arrays and equals the sum over the whole axis at a "
+      "skolem position for every chunk-size assignment; the reduced axis ends with one block, every partial block is used "
+      "exactly once. (b) Combine algebra: the real mean_*/moment_* (orders 2-4, ddof 0/1)/arg_* chunk-combine-aggregate "
+      "functions run on object arrays of symbolic reals; for every data vector the tree result equals the definition (mean, "
+      "central moments, first arg-extremum including ties) for every enumerated grouping and tree shape.",
+      "Trusted: z3 (QF_UFLIRA for (a), QF_NRA for (b)), symx shims, exact reals (the property's floating tolerance clause is "
+      "not decided), dtype=object code path for (b). Outside: nan-variants, topk/percentile, multi-axis PartialReduce, dtype "
+      "promotion, slice-through-reduction (rewrite; see C02).",
+      "DESIGN.md 6 C18")
+
 ALL = [f"C{i:02d}" for i in range(1, 30)]
 
 
